@@ -3,6 +3,7 @@
   python3 harness/run_seeded.py import /tmp/seed/C18/out C18        copy patch/demo/meta of a sub-agent into seeded/<name>/
   python3 harness/run_seeded.py confirm <name>...                   scratch worktree: applies, suite passes, demo fails with / passes without
   python3 harness/run_seeded.py check <name>... [--props C01,C02]   apply to /repo, run ./check for the property (and others), undo
+  python3 harness/run_seeded.py iso <name>... [--props=..] [-j4]     same, but in a scratch worktree + scratch copy of /verif (parallel, /repo untouched)
   python3 harness/run_seeded.py table                               regenerate seeded/RESULTS.md
 
 Nothing is ever committed to /repo; every apply is undone with `git -C /repo checkout -- .` in a finally block."""
@@ -126,6 +127,62 @@ def cmd_check(names, props=None, tier='quick'):
     sh([PY, os.path.join(VERIF, 'harness', 'srcparams.py')], env=dict(os.environ, PYTHONPATH='/repo:' + os.path.join(VERIF, 'harness')))
 
 
+def _run_checks(name, plist, tier, verif, env, results, mode):
+    for prop in plist:
+        t0 = time.time()
+        rc, out = sh([os.path.join(verif, 'check'), prop, '--tier', tier], cwd=verif, env=env, timeout=1500)
+        viol = [l for l in out.splitlines() if l.startswith('VIOLATION')]
+        sigs = []
+        for l in viol:
+            path = l.split('replay=')[1].split()[0]
+            try:
+                r = json.load(open(path))
+                sigs.append(r.get('signature') or ('broken: ' + '; '.join(str(b.get('what') if isinstance(b, dict) else b)[:120] for b in r.get('broken', []))))
+            except Exception:
+                sigs.append('?')
+        results[prop] = dict(tier=tier, exit=rc, detected=(rc == 1 and bool(viol)),
+                             concrete_input=any('no-failing-input-found' not in l for l in viol),
+                             signatures=sigs[:6], wall_s=round(time.time() - t0, 1), mode=mode)
+        if rc not in (0, 1) or (rc == 1 and not viol):
+            results[prop]['tail'] = out[-400:]
+        print(name, prop, json.dumps(results[prop]), flush=True)
+
+
+def iso_one(name, props, tier):
+    """Run the checks against the seeded change without touching /repo or /verif: a scratch worktree of /repo with
+    the patch applied (LV_REPO) and a scratch copy of /verif (its own coq build directory, evidence and replays)."""
+    d = os.path.join(SEEDED, name)
+    base = f'/tmp/lv_iso/{name}_{os.getpid()}'
+    wt, vf = base + '/repo', base + '/verif'
+    meta = load_meta(name)
+    plist = props or [meta.get('property', name[:3])]
+    results = {}
+    os.makedirs(base, exist_ok=True)
+    try:
+        sh(['git', '-C', REPO, 'worktree', 'add', '-q', '--detach', wt, 'HEAD'])
+        rc, out = sh(['git', '-C', wt, 'apply', os.path.join(d, 'patch.diff')])
+        if rc != 0:
+            print(name, 'does not apply:', out[-300:])
+            return name, results
+        sh(['rsync', '-a', '--exclude', '.git', '--exclude', 'seeded', '--exclude', 'replays', VERIF + '/', vf + '/'])
+        env = dict(os.environ, LV_REPO=wt, LV_SCRATCH=base + '/scratch')
+        _run_checks(name, plist, tier, vf, env, results, 'isolated copy of /verif against a scratch worktree (LV_REPO)')
+    finally:
+        sh(['git', '-C', REPO, 'worktree', 'remove', '--force', wt])
+        shutil.rmtree(base, ignore_errors=True)
+    return name, results
+
+
+def cmd_iso(names, props=None, tier='quick', jobs=4):
+    from concurrent.futures import ThreadPoolExecutor
+    with ThreadPoolExecutor(jobs) as ex:
+        for name, results in ex.map(lambda n: iso_one(n, props, tier), names):
+            meta = load_meta(name)
+            meta.setdefault('checks', {}).update(results)
+            save_meta(name, meta)
+    sh(['git', '-C', REPO, 'worktree', 'prune'])
+
+
 def cmd_table():
     rows = []
     for name in sorted(os.listdir(SEEDED)):
@@ -168,5 +225,17 @@ if __name__ == '__main__':
             else:
                 names.append(x)
         cmd_check(names, props, tier)
+    elif a[0] == 'iso':
+        props, tier, names, jobs = None, 'quick', [], 4
+        for x in a[1:]:
+            if x.startswith('--props'):
+                props = x.split('=')[1].split(',')
+            elif x.startswith('--tier'):
+                tier = x.split('=')[1]
+            elif x.startswith('-j'):
+                jobs = int(x[2:])
+            else:
+                names.append(x)
+        cmd_iso(names, props, tier, jobs)
     elif a[0] == 'table':
         cmd_table()
